@@ -191,10 +191,9 @@ def c18 (p : Panel) (a : List String) (evs : List Ev) : List String :=
           if cmd = 0x01 then
             match ps with
             | [lo, hi, _] =>
-              -- driver output control: MUX gate lines = rows - 1 (vendor sequences of the older
-              -- chips program the row count itself; both are accepted)
+              -- driver output control: MUX gate lines = rows - 1 (SSD16xx register map: A[8:0] = MUX - 1)
               let v := lo.toNat + 256 * (hi.toNat % 4)
-              if v = p.height - 1 ∨ v = p.height ∨ p.name == "epd7in5_hd" then [] else
+              if v = p.height - 1 ∨ p.name == "epd7in5_hd" then [] else
                 [s!"site={site} reason=geometry got=gates{v} want={p.height - 1}"]
             | _ => []
           else []
